@@ -296,6 +296,7 @@ func init() {
 		o.Check(d >= 0 && r >= 0 && s >= 0 && d < r && r < s, "chain-order", "each integration's chain must be dedup → retry(send) → set-notifies(record), is "+strings.Join(inner, " → "), nil)
 		o.Check(s == len(inner)-1, "record-not-last", "recording the notification must be the last stage of the chain", nil)
 		nflogLogRule(o)
+		integrationLogKeyRule(o)
 		o.MinSites(3)
 	})
 
